@@ -390,6 +390,314 @@ theorem radix_eq_spec (L : Lib) (s : Bool) (m : Nat) (e : Int) (lg : FV) (r : Fi
   simp [radix_partial s m e r.val hm hint hsmall, hm, hint, h10]
 
 
+/-! ## toFixed (§15.7.4.5) -/
+
+/-- the character fmtF prints for decimal position j of the digit slice -/
+def digitAt (ds : List Nat) (j : Int) : Nat :=
+  if 0 ≤ j ∧ j < (ds.length : Int) then digitCh (ds.getD j.toNat 0) else 48
+
+theorem fmtF_char (neg : Bool) (ds : List Nat) (dp prec : Int) :
+    fmtF neg ⟨ds, dp⟩ prec = (if neg then [45] else []) ++
+      (if dp > 0 then (List.range dp.toNat).map (fun (i : Nat) => digitAt ds i) else [48]) ++
+      (if prec > 0 then 46 :: (List.range prec.toNat).map (fun (i : Nat) => digitAt ds (dp + i)) else []) := by
+  simp only [fmtF, digitAt]
+  congr 2
+  by_cases hdp : dp > 0
+  · simp only [hdp, if_true]
+    apply List.ext_getElem
+    · simp; omega
+    · intro i h1 h2
+      simp at h1 h2
+      by_cases hi : i < ds.length
+      · have : i < min ds.length dp.toNat := by omega
+        rw [List.getElem_append_left (by simp; omega)]
+        simp [hi]
+      · rw [List.getElem_append_right (by simp; omega)]
+        simp [hi]
+  · simp [hdp]
+
+theorem digitAt_append_zeros (ds : List Nat) (z : Nat) (j : Int) :
+    digitAt (ds ++ List.replicate z 0) j = digitAt ds j := by
+  unfold digitAt
+  by_cases h0 : 0 ≤ j
+  · by_cases h1 : j < (ds.length : Int)
+    · have h2 : j < ((ds ++ List.replicate z 0).length : Int) := by simp; omega
+      have h3 : j.toNat < ds.length := by omega
+      rw [if_pos ⟨h0, h2⟩, if_pos ⟨h0, h1⟩]
+      simp [List.getElem?_append_left h3]
+    · by_cases h2 : j < ((ds ++ List.replicate z 0).length : Int)
+      · have h3 : ds.length ≤ j.toNat := by omega
+        have h4 : j.toNat - ds.length < z := by simp at h2; omega
+        rw [if_pos ⟨h0, h2⟩, if_neg (fun h => h1 h.2)]
+        simp [List.getElem?_append_right h3, h4, digitCh]
+      · rw [if_neg (fun h => h2 h.2), if_neg (fun h => h1 h.2)]
+  · rw [if_neg (fun h => h0 h.1), if_neg (fun h => h0 h.1)]
+
+theorem fmtF_trim (neg : Bool) (ds : List Nat) (z : Nat) (dp prec : Int) :
+    fmtF neg ⟨ds ++ List.replicate z 0, dp⟩ prec = fmtF neg ⟨ds, dp⟩ prec := by
+  rw [fmtF_char, fmtF_char]
+  simp only [digitAt_append_zeros]
+
+theorem all_zero_replicate (l : List Nat) (h : ∀ x ∈ l, x = 0) : l = List.replicate l.length 0 := by
+  induction l with
+  | nil => rfl
+  | cons a t ih =>
+    have ha : a = 0 := h a (by simp)
+    have ht : ∀ x ∈ t, x = 0 := fun x hx => h x (by simp [hx])
+    simp [List.replicate_succ, ha, ← ih ht]
+
+theorem takeWhile_all (p : Nat → Bool) (l : List Nat) : ∀ x ∈ l.takeWhile p, p x = true := by
+  induction l with
+  | nil => simp
+  | cons a t ih =>
+    intro x hx
+    by_cases ha : p a = true
+    · simp [List.takeWhile, ha] at hx
+      rcases hx with rfl | hx
+      · exact ha
+      · exact ih x hx
+    · simp [List.takeWhile, ha] at hx
+
+theorem trim_append (ds : List Nat) : ∃ z, ds = trimZeros ds ++ List.replicate z 0 := by
+  refine ⟨(ds.reverse.takeWhile (· = 0)).length, ?_⟩
+  have h := List.takeWhile_append_dropWhile (p := (· = 0)) (l := ds.reverse)
+  have hz : ∀ x ∈ ds.reverse.takeWhile (· = 0), x = 0 := by
+    intro x hx
+    have := takeWhile_all (· = 0) ds.reverse x hx
+    simpa using this
+  have h2 : ds = (ds.reverse.dropWhile (· = 0)).reverse ++ (ds.reverse.takeWhile (· = 0)).reverse := by
+    have := congrArg List.reverse h
+    rw [List.reverse_append, List.reverse_reverse] at this
+    exact this.symm
+  have h3 : (ds.reverse.takeWhile (· = 0)).reverse = List.replicate (ds.reverse.takeWhile (· = 0)).length 0 := by
+    have := all_zero_replicate _ (fun x hx => hz x (by simpa using hx) : ∀ x ∈ (ds.reverse.takeWhile (· = 0)).reverse, x = 0)
+    simpa using this
+  unfold trimZeros
+  rw [← h3]
+  exact h2
+
+
+theorem frac_pos' (ds : List Nat) (n : Nat) (h : n ≤ ds.length) :
+    (List.range (ds.length - n)).map (fun (i : Nat) => digitAt ds ((n : Int) + (i : Int)))
+      = (ds.drop n).map digitCh := by
+  apply List.ext_getElem
+  · simp
+  · intro i h1 h2
+    simp at h1 h2 ⊢
+    have h3 : (n : Int) + (i : Int) < (ds.length : Int) := by omega
+    have h0 : (0 : Int) ≤ (n : Int) + (i : Int) := by omega
+    have h4 : ((n : Int) + (i : Int)).toNat = n + i := by omega
+    simp [digitAt, h3, h0, h4, List.getElem?_eq_getElem (by omega : n + i < ds.length)]
+
+theorem frac_neg' (ds : List Nat) (a : Nat) :
+    (List.range (ds.length + a)).map (fun (i : Nat) => digitAt ds (-(a : Int) + (i : Int)))
+      = List.replicate a 48 ++ ds.map digitCh := by
+  apply List.ext_getElem
+  · simp; omega
+  · intro i h1 h2
+    simp at h1 h2
+    by_cases hi : i < a
+    · have : ¬ (0 : Int) ≤ -(a : Int) + (i : Int) := by omega
+      simp [digitAt, this, List.getElem_append_left, hi]
+    · have h0 : (0 : Int) ≤ -(a : Int) + (i : Int) := by omega
+      have h3 : -(a : Int) + (i : Int) < (ds.length : Int) := by omega
+      have h4 : (-(a : Int) + (i : Int)).toNat = i - a := by omega
+      simp [digitAt, h0, h3, h4]
+      rw [List.getElem_append_right (by simp; omega)]
+      simp [List.getElem?_eq_getElem (by omega : i - a < ds.length)]
+
+theorem int_take (ds : List Nat) (D : Nat) (h : D ≤ ds.length) :
+    (List.range D).map (fun (i : Nat) => digitAt ds (i : Int)) = (ds.take D).map digitCh := by
+  apply List.ext_getElem
+  · simp; omega
+  · intro i h1 h2
+    simp at h1 h2 ⊢
+    have h3 : (i : Int) < (ds.length : Int) := by omega
+    simp [digitAt, h3, List.getElem?_eq_getElem (by omega : i < ds.length)]
+
+/-- the §15.7.4.5 step 8b–c layout of the digit string `ms` with `f` fraction digits -/
+def es5Fixed (ms : Str) (f : Nat) : Str :=
+  if f = 0 then ms
+  else
+    let ms := Spec.padLeft (f + 1) ms
+    ms.take (ms.length - f) ++ 46 :: ms.drop (ms.length - f)
+
+/-- strconv's %f layout of a non-empty digit string positioned `f` places before its end is the
+    ES5 toFixed layout, for every digit string and every f -/
+theorem fixed_layout (neg : Bool) (ds : List Nat) (f : Nat) (hne : ds ≠ []) :
+    fmtF neg ⟨ds, (ds.length : Int) - (f : Int)⟩ (f : Int)
+      = (if neg then [45] else []) ++ es5Fixed (ds.map digitCh) f := by
+  have hk : 0 < ds.length := List.length_pos_iff.mpr hne
+  rw [fmtF_char, List.append_assoc]
+  congr 1
+  unfold es5Fixed
+  by_cases hf : f = 0
+  · subst hf
+    have h1 : (ds.length : Int) - ((0 : Nat) : Int) > 0 := by simp; omega
+    have h2 : ((ds.length : Int) - ((0 : Nat) : Int)).toNat = ds.length := by simp
+    have h3 : ¬ (((0 : Nat) : Int) > 0) := by simp
+    rw [if_pos h1, if_neg h3, h2, int_take ds ds.length (Nat.le_refl _)]
+    simp
+  · have hfp : ((f : Nat) : Int) > 0 := by omega
+    rw [if_pos hfp, if_neg hf]
+    by_cases hkf : f < ds.length
+    · -- point inside the digits
+      have h1 : (ds.length : Int) - (f : Int) > 0 := by omega
+      have h2 : ((ds.length : Int) - (f : Int)).toNat = ds.length - f := by omega
+      have h3 : (ds.length : Int) - (f : Int) = ((ds.length - f : Nat) : Int) := by omega
+      have h4 : ds.length - (ds.length - f) = f := by omega
+      have hfr := frac_pos' ds (ds.length - f) (by omega)
+      rw [h4] at hfr
+      rw [if_pos h1, h2, int_take ds (ds.length - f) (by omega), h3, Int.toNat_natCast, hfr]
+      have hpad : Spec.padLeft (f + 1) (ds.map digitCh) = ds.map digitCh := by
+        simp [Spec.padLeft]; omega
+      simp only [hpad, List.length_map, List.map_take, List.map_drop]
+    · -- 0.000ddd
+      have h1 : ¬ ((ds.length : Int) - (f : Int) > 0) := by omega
+      have h3 : (ds.length : Int) - (f : Int) = -((f - ds.length : Nat) : Int) := by omega
+      have h4 : ds.length + (f - ds.length) = f := by omega
+      have hfr := frac_neg' ds (f - ds.length)
+      rw [h4] at hfr
+      rw [if_neg h1, h3, Int.toNat_natCast, hfr]
+      have hpl : (Spec.padLeft (f + 1) (ds.map digitCh)).length = f + 1 := by
+        simp [Spec.padLeft]; omega
+      have hpad : Spec.padLeft (f + 1) (ds.map digitCh)
+          = 48 :: (List.replicate (f - ds.length) 48 ++ ds.map digitCh) := by
+        have : f + 1 - ds.length = (f - ds.length) + 1 := by omega
+        simp [Spec.padLeft, this, List.replicate_succ]
+      simp only [hpl]
+      have : f + 1 - f = 1 := by omega
+      rw [this, hpad]
+      simp
+
+/-- the zero case: no digits at all -/
+theorem fixed_layout_zero (neg : Bool) (f : Nat) :
+    fmtF neg ⟨[], 0⟩ (f : Int) = (if neg then [45] else []) ++ es5Fixed [48] f := by
+  rw [fmtF_char, List.append_assoc]
+  congr 1
+  unfold es5Fixed
+  by_cases hf : f = 0
+  · subst hf; simp
+  · have hfp : ((f : Nat) : Int) > 0 := by omega
+    have hd : ∀ j : Int, digitAt [] j = 48 := by intro j; simp [digitAt]; omega
+    simp only [hd, if_pos hfp, if_neg hf]
+    have : f + 1 - 1 = f := by omega
+    obtain ⟨g, rfl⟩ : ∃ g, f = g + 1 := ⟨f - 1, by omega⟩
+    simp [Spec.padLeft, List.replicate_succ]
+    rw [← List.replicate_succ', List.map_const', List.length_range]
+
+
+/-- half-even and half-up rounding agree away from exact ties -/
+theorem rne_eq_rhu (a b : Nat) (hb : 0 < b) (hnt : Spec.Dev.isTie a b = false) :
+    divRNE a b = Spec.divRHU a b := by
+  simp only [Spec.Dev.isTie, decide_eq_false_iff_not] at hnt
+  unfold divRNE Spec.divRHU
+  have hdm := Nat.div_add_mod a b
+  have hr : a % b < b := Nat.mod_lt _ hb
+  have key : 2 * a + b = (2 * (a % b) + b) + (2 * b) * (a / b) := by
+    have : 2 * a = 2 * (b * (a / b)) + 2 * (a % b) := by omega
+    rw [this, Nat.mul_assoc]; omega
+  rw [key, Nat.add_mul_div_left _ _ (by omega : 0 < 2 * b)]
+  by_cases h1 : 2 * (a % b) < b
+  · simp only [h1, if_true]
+    have h3 : (2 * (a % b) + b) / (2 * b) = 0 := Nat.div_eq_of_lt (by omega)
+    omega
+  · have h2 : 2 * (a % b) > b := by omega
+    simp only [h1, h2, if_false, if_true]
+    have : (2 * (a % b) + b) / (2 * b) = 1 := by
+      apply Nat.div_eq_of_lt_le <;> omega
+    omega
+
+theorem natDigitsAux_suffix (fuel n : Nat) (acc : List Nat) : ∃ pre, natDigitsAux fuel n acc = pre ++ acc := by
+  induction fuel generalizing n acc with
+  | zero => exact ⟨[], rfl⟩
+  | succ k ih =>
+    simp only [natDigitsAux]
+    split
+    · exact ⟨[], rfl⟩
+    · obtain ⟨pre, h⟩ := ih (n / 10) (n % 10 :: acc)
+      exact ⟨pre ++ [n % 10], by rw [h]; simp⟩
+
+theorem natDigits_ne_nil (n : Nat) (hn : n ≠ 0) : natDigits n ≠ [] := by
+  unfold natDigits
+  obtain ⟨k, rfl⟩ : ∃ k, n = k + 1 := ⟨n - 1, by omega⟩
+  simp only [natDigitsAux, hn, if_false]
+  obtain ⟨pre, h⟩ := natDigitsAux_suffix k ((k + 1) / 10) [(k + 1) % 10]
+  rw [h]; simp
+
+theorem ratOf_den_pos (m : Nat) (e : Int) : 0 < (ratOf m e).2 := by
+  unfold ratOf; split
+  · simp
+  · exact Nat.pow_pos (by decide)
+
+theorem fixedStr_eq (s : Bool) (m : Nat) (e : Int) (f : Nat)
+    (hsmall : ¬ ((ratOf m e).1 ≥ 10 ^ 21 * (ratOf m e).2)) :
+    Spec.fixedStr (.fin s m e) f = (if s ∧ m ≠ 0 then [45] else []) ++
+      es5Fixed (Spec.decimalStr (Spec.divRHU ((ratOf m e).1 * 10 ^ f) (ratOf m e).2)) f := by
+  cases hr : ratOf m e with
+  | mk num den =>
+    rw [hr] at hsmall
+    simp only at hsmall
+    simp only [Spec.fixedStr, hr, hsmall, if_false, es5Fixed]
+    split <;> simp
+
+/-- C06.toFixed_partial (core): for every finite non-zero double below 10^21 and every digit count f,
+    if x·10^f is not an exact tie, strconv's `'f'` formatting with the exact half-even digit rule is the
+    §15.7.4.5 string. -/
+theorem toFixed_core (s : Bool) (m : Nat) (e : Int) (f : Nat) (hm : m ≠ 0)
+    (hsmall : ¬ ((ratOf m e).1 ≥ 10 ^ 21 * (ratOf m e).2))
+    (hnt : Spec.Dev.isTie ((ratOf m e).1 * 10 ^ f) (ratOf m e).2 = false) :
+    formatFloat Spec.exactLib (.fin s m e) .f (f : Int) = Spec.fixedStr (.fin s m e) f := by
+  rw [fixedStr_eq s m e f hsmall]
+  have hden := ratOf_den_pos m e
+  have hrr := rne_eq_rhu _ _ hden hnt
+  have hneg : ¬ ((f : Int) < 0) := by omega
+  simp only [formatFloat, hneg, if_false, hm, Spec.exactLib, goFixedFrac, formatDigits, Int.toNat_natCast]
+  cases hr : ratOf m e with
+  | mk num den =>
+    rw [hr] at hrr
+    simp only at hrr
+    simp only [fracDigitsWith, hrr]
+    have hsm : (s = true ∧ m ≠ 0) ↔ s = true := by simp [hm]
+    by_cases h0 : Spec.divRHU (num * 10 ^ f) den = 0
+    · simp only [h0, if_true, Spec.decimalStr]
+      rw [fixed_layout_zero]
+      simp [hm]
+    · simp only [h0, if_false, Spec.decimalStr]
+      obtain ⟨z, hz⟩ := trim_append (natDigits (Spec.divRHU (num * 10 ^ f) den))
+      have := fmtF_trim s (trimZeros (natDigits (Spec.divRHU (num * 10 ^ f) den))) z
+        (((natDigits (Spec.divRHU (num * 10 ^ f) den)).length : Int) - (f : Int)) (f : Int)
+      rw [← hz] at this
+      rw [← this, fixed_layout s _ f (natDigits_ne_nil _ h0)]
+      simp [hm]
+
+
+theorem fixed_arg_table : ∀ f : Fin 21,
+    lt (ofInt 20) (Spec.toInteger (ofInt f.val)) = false ∧ lt (Spec.toInteger (ofInt f.val)) zero = false ∧
+    goInt (Spec.toInteger (ofInt f.val)) = f.val ∧ Spec.intOf (Spec.toInteger (ofInt f.val)) = f.val := by
+  decide +kernel
+
+/-- C06.toFixed_partial: x.toFixed(f) for every finite non-zero double x with |x| < 10^21 and every
+    digit count f = 0..20, outside the tie region: model = spec.
+    (`hle` states that otto's float comparison `|x| >= 1e21` agrees with the exact one `hsmall`.) -/
+theorem toFixed_partial (s : Bool) (m : Nat) (e : Int) (lg : FV) (f : Fin 21) (hm : m ≠ 0)
+    (hsmall : ¬ ((ratOf m e).1 ≥ 10 ^ 21 * (ratOf m e).2))
+    (hle : le (ofRatParts false (10 ^ 21) 1) (abs (.fin s m e)) = false)
+    (hnt : Spec.Dev.isTie ((ratOf m e).1 * 10 ^ f.val) (ratOf m e).2 = false) :
+    toFixed Spec.exactLib (.fin s m e) lg (.num (ofInt f.val)) = Spec.toFixed (.fin s m e) (.num (ofInt f.val)) := by
+  obtain ⟨t1, t2, t3, t4⟩ := fixed_arg_table f
+  have t2' : lt (Spec.toInteger (ofInt f.val)) (ofInt 0) = false := by rw [ofInt_zero]; exact t2
+  simp only [toFixed, Spec.toFixed, toInteger_eq, Arg.toFloat, Spec.argInt, Spec.ltI, Spec.gtI, t1, t2, t2',
+    toFixedStr, isNaN, hle, t3, t4, Int.toNat_natCast]
+  simp [toFixed_core s m e f.val hm hsmall hnt]
+
+
+/-- the hypotheses of `toFixed_partial` hold for (1.45).toFixed(1) (and the result is "1.4": 1.45 is below the tie) -/
+example : ¬ ((ratOf 0x17333333333333 (-52)).1 ≥ 10 ^ 21 * (ratOf 0x17333333333333 (-52)).2) := by decide +kernel
+example : le (ofRatParts false (10 ^ 21) 1) (abs (.fin false 0x17333333333333 (-52))) = false := by decide +kernel
+example : Spec.Dev.isTie ((ratOf 0x17333333333333 (-52)).1 * 10 ^ 1) (ratOf 0x17333333333333 (-52)).2 = false := by decide +kernel
+example : Spec.toFixed (.fin false 0x17333333333333 (-52)) (.num (ofInt 1)) = .str [49, 46, 52] := by decide +kernel
+
 /-! ## non-vacuity of the layout theorem and witnesses of the deviation regions -/
 
 def fv (b : UInt64) : FV := decode b
